@@ -3,6 +3,7 @@ import NfpmModel.Lemmas.ArLemmas
 import NfpmModel.Lemmas.TarLemmas
 import NfpmModel.Lemmas.PaxLemmas
 import NfpmModel.Lemmas.CpioLemmas
+import NfpmModel.Lemmas.RpmHdrLemmas
 import NfpmModel.Digest
 import NfpmModel.Props.C05
 import NfpmModel.Generated.G8WriteTgz
@@ -313,6 +314,40 @@ theorem apk_data_reads_back_model_items (H : Hashes) (fs : Bytes → Bytes) (pla
     by_cases hs : c.type = T.symlink
     · rw [if_pos hs]
     · rw [if_neg hs]
+
+/-- **rpm header structures are well-formed**: from the bytes rpmpack's index writer produces for a region tag and a
+    list of entries (16-byte index records – the region record first – and the store with INT16/INT32 data aligned,
+    the region trailer last) an independent reader recovers the region tag, every entry (tag, type, count, data
+    bytes) in order and the bytes that follow, for every entry list the structure can express (data shaped as the
+    type and count announce, everything within 32 bits) -/
+theorem rpm_header_roundtrip (h : Nat) (es : List RpmHdr.Entry) (rest : Bytes) (ok : RpmHdr.HeaderOK h es) :
+    RpmHdr.read (RpmHdr.header h es ++ rest) = some (h, es, rest) :=
+  RpmHdr.read_header h es rest ok
+
+/-- **the rpm file is well-formed**: 96-byte lead, signature header (region 62), NUL padding to the next 8-byte
+    boundary, header (region 63), payload; the reader recovers the lead name, both entry lists and the payload, and
+    finds the main header – the bytes the header digests and signatures cover – at offset 96 + signature header +
+    padding, a multiple of 8, with exactly the length it was written with -/
+theorem rpm_file_roundtrip (nv : Bytes) (sig hdr : List RpmHdr.Entry) (payload : Bytes)
+    (hs : RpmHdr.HeaderOK 62 sig) (hh : RpmHdr.HeaderOK 63 hdr) (h0 : (0 : UInt8) ∉ nv) (hl : nv.length ≤ 65) :
+    RpmHdr.readFile (RpmHdr.file nv sig hdr payload)
+      = some { leadName := nv, sig := sig, hdr := hdr,
+               hdrOff := 96 + (RpmHdr.header 62 sig).length + RpmHdr.pad8 (RpmHdr.header 62 sig).length,
+               hdrLen := (RpmHdr.header 63 hdr).length, payload := payload }
+    ∧ (96 + (RpmHdr.header 62 sig).length + RpmHdr.pad8 (RpmHdr.header 62 sig).length) % 8 = 0 := by
+  refine ⟨RpmHdr.readFile_file nv sig hdr payload hs hh h0 hl, ?_⟩
+  unfold RpmHdr.pad8; omega
+
+/-- non-vacuity: a name string, an aligned INT32 after an odd-length string, a string array and a binary entry -/
+example : RpmHdr.read (RpmHdr.header 63
+    [ { tag := 1000, typ := 6, count := 1, data := b!"pkg" ++ [0] },
+      { tag := 1009, typ := 4, count := 2, data := [0, 0, 0, 1, 0, 0, 1, 0] },
+      { tag := 1117, typ := 8, count := 2, data := b!"a" ++ [0] ++ b!"bc" ++ [0] },
+      { tag := 1146, typ := 7, count := 3, data := [1, 2, 3] } ] ++ b!"payload")
+    = some (63, [ { tag := 1000, typ := 6, count := 1, data := b!"pkg" ++ [0] },
+      { tag := 1009, typ := 4, count := 2, data := [0, 0, 0, 1, 0, 0, 1, 0] },
+      { tag := 1117, typ := 8, count := 2, data := b!"a" ++ [0] ++ b!"bc" ++ [0] },
+      { tag := 1146, typ := 7, count := 3, data := [1, 2, 3] } ], b!"payload") := by decide +kernel
 
 /-- **archlinux**: payload first, then .PKGINFO, .MTREE, and .INSTALL iff scripts exist -/
 theorem arch_member_order (payload : List Bytes) (hasScripts : Bool) :
